@@ -258,6 +258,84 @@ def random_case(ctx):
     return {'target': list(target), 'pool': pool, 'pops': pops, 'fresh_copies': fresh}
 
 
+def front_targets(nobj, i):
+    """a direct front and a keeper (front of capacity 5 / 10) for the structured front cases"""
+    direct = [('pareto', 'uid', 0), ('pareto', 'same', 0), ('pareto', 'uid', 5), ('pareto', 'same', 6)][i % 4]
+    nq = 1 + i % (nobj - 1)
+    keeper = ('keeper', True, 1 + i % 2, nq, nobj - nq)
+    return [direct, keeper]
+
+
+def wide_front_cases(ctx, n_three, n_four):
+    """3- and 4-objective fronts of 3..5 mutually non-dominated members (distinct permutations of
+    0..n-1: equal sums, so none dominates another), then newcomers that dominate a chosen subset of
+    them - the componentwise minimum of 2 or 3 members, which in general are NOT neighbours in the
+    lexicographically sorted archive and have non-dominated members between them - then a second
+    such newcomer together with a repeat of a removed member."""
+    r = ctx.rng
+    out = []
+    for nobj, budget in ((3, n_three), (4, n_four)):
+        perms = [tuple(float(x) for x in p) for p in itertools.permutations(range(nobj))]
+        subsets = [c for size in (3, 4, 5) for c in itertools.combinations(perms, size)]
+        if nobj == 4:
+            subsets = r.sample(subsets, min(len(subsets), 60))
+        cases = []
+        for si, members in enumerate(subsets):
+            groups = list(itertools.combinations(range(len(members)), 2)) + list(itertools.combinations(range(len(members)), 3))
+            if nobj == 4:
+                groups = r.sample(groups, 4)
+            for gi, grp in enumerate(groups):
+                new1 = tuple(min(members[j][d] for j in grp) for d in range(nobj))
+                other = r.choice(groups)
+                new2 = tuple(min(members[j][d] for j in other) - r.choice([0.0, 0.5]) for d in range(nobj))
+                order = list(range(len(members)))
+                r.shuffle(order)
+                pool = [dict(uid=i + 1, vals=members[i], gclass=0, gen=0) for i in range(len(members))]
+                pool.append(dict(uid=len(pool) + 1, vals=new1, gclass=0, gen=1))
+                pool.append(dict(uid=len(pool) + 1, vals=new2, gclass=r.choice([0, 1]), gen=1))
+                n1, n2 = len(members), len(members) + 1
+                cut = r.randint(1, len(order))
+                pops = [p for p in (order[:cut], order[cut:]) if p] + [[n1], [n2, grp[0]]]
+                for t in front_targets(nobj, si + gi):
+                    cases.append({'target': list(t), 'pool': pool, 'pops': pops})
+        if len(cases) > budget:
+            # keep a deterministic spread, always including every subset size
+            cases = [cases[i] for i in sorted(r.sample(range(len(cases)), budget))]
+        out.extend(cases)
+    return out
+
+
+def random_wide_case(ctx):
+    """random 3/4-objective sequences over a pool of permutation vectors, componentwise minima of
+    random subsets of them (dominating those subsets) and shifted copies"""
+    r = ctx.rng
+    nobj = r.choice([3, 3, 4])
+    perms = [tuple(float(x) for x in p) for p in itertools.permutations(range(nobj))]
+    base = r.sample(perms, r.randint(3, 6))
+    vecs = list(base)
+    for _ in range(r.randint(2, 5)):
+        grp = r.sample(base, r.randint(2, 3))
+        vecs.append(tuple(min(v[d] for v in grp) - r.choice([0.0, 0.0, 0.5]) for d in range(nobj)))
+    for _ in range(r.randint(0, 2)):
+        vecs.append(tuple(x + r.choice([0.0, 0.5, 1.0]) for x in r.choice(base)))
+    pool = [dict(uid=i + 1, vals=v, gclass=r.choice([0, 0, 1]), gen=r.choice([0, 1])) for i, v in enumerate(vecs)]
+    nq = r.randint(1, nobj - 1)
+    target = r.choice([('pareto', r.choice(['uid', 'same']), r.choice([0, 0, 4, 6, 8])),
+                       ('keeper', True, r.randint(1, 2), nq, nobj - nq)])
+    # mostly: members first, dominating newcomers later; sometimes any order
+    idx = list(range(len(pool)))
+    if r.random() < 0.3:
+        r.shuffle(idx)
+    pops, i = [], 0
+    while i < len(idx):
+        n = r.randint(1, 3)
+        pops.append(idx[i:i + n])
+        i += n
+    for _ in range(r.randint(0, 4)):
+        pops.append([r.randrange(len(pool)) for _ in range(r.randint(0, 2))])
+    return {'target': list(target), 'pool': pool, 'pops': pops}
+
+
 def zero_size_cases():
     """maxsize = 0 / None: update of an empty hall of fame with a non-empty population raises
     (outside the property's k >= 1; compared with the model only)"""
@@ -429,7 +507,8 @@ def run(ctx):
                 'every prefix are compared), for 12 hall-of-fame, 8 (thorough 16) Pareto-front and 10 keeper configurations '
                 '(k 1..4, capacity 0..3, both similarity functions, 1..3 objectives); quick: U2 P2; thorough: U2 P2, U3 P2 N3 (not for '
                 'the 4-kind _individuals_same fronts), U2 P3 N3 (hall of fame), U4 P1 N4; random: sequences of <= 30 updates over pools of <= 14 '
-                'individuals incl. anti-chains that fill the front; evaluations = updates compared; distinct = distinct sequence; '
+                'individuals incl. anti-chains that fill the front; wide fronts: 3- and 4-objective fronts of 3..5 mutually non-dominated '
+                'permutation vectors, then newcomers (componentwise minima of 2-3 members) dominating non-adjacent members; evaluations = updates compared; distinct = distinct sequence; '
                 'non-trivial = >= 2 individuals shown and a tie, a repeat, more individuals than the capacity or >= 3 individuals')
     ctx.trusted_extra = [
         'fitness values of the correspondence are dyadic and pairwise identical or far apart, so binary64 comparisons and '
@@ -483,6 +562,13 @@ def run(ctx):
     res = evaluate(ctx, 'random sequences', cases)
     ctx.set_exhaustive('random sequences', False)
     for case, obs, ag, ho in res[:2]:
+        ctx.sample({'case': case, 'observed': obs, 'agree': ag, 'holds': ho})
+    # ---- wide fronts: >= 3 objectives, newcomers dominating non-adjacent members
+    cases = wide_front_cases(ctx, ctx.budget(1500, 6000), ctx.budget(400, 1500))
+    cases += [random_wide_case(ctx) for _ in range(ctx.budget(300, 3000))]
+    res = evaluate(ctx, 'wide fronts (3-4 objectives)', cases)
+    ctx.set_exhaustive('wide fronts (3-4 objectives)', False)
+    for case, obs, ag, ho in res[:1]:
         ctx.sample({'case': case, 'observed': obs, 'agree': ag, 'holds': ho})
     # ---- maxsize 0 (model only)
     evaluate(ctx, 'maxsize 0', list(zero_size_cases()))
